@@ -237,7 +237,7 @@ PROPS["C19"] = {
 PROPS["C11"] = {
     "engine": "kani", "module": "c11", "feature": "c11", "jobs": 8, "pre": ["gen_ef"],
     "functions": ["mem_dbg::MemSize::mem_size(SizeFlags::default()) of Rank9, RankSmall (five variants), Select9, BitVec, BitFieldVec, EliasFano",
-                  "Rank9::new", "RankSmall::new", "Select9::new (thorough, concrete contents)", "BitVec::new", "BitFieldVec::{new,new_unaligned}",
+                  "Rank9::new", "RankSmall::new", "Select9::new (thorough, concrete contents, <= 1024 bits)", "BitVec::new", "BitFieldVec::{new,new_unaligned}",
                   "EliasFanoBuilder::{new,build}", "EliasFano::{map_low_bits,map_high_bits}"],
     "bounds": "rank structures: concrete lengths (1, 512, 513, 4096, 4097, 8192, 8193 bits) over all-zero / all-one contents (space does not depend "
               "on contents): overhead <= documented fraction of len/8 plus 96 bytes; BitVec/BitFieldVec: symbolic length (<= 2^20 / 2^16) and width; "
